@@ -223,7 +223,7 @@ func ruleOpExhaustive(c *Ctx, pkgs ...string) {
 
 func runC11(c *Ctx) {
 	P := c.P
-	c.Explanation = "Decides structural clauses: (R-EDIT-SPAN) every Edit built by the edit-script constructor takes X from a slice expression over lhs and Y from one over rhs — 'the very spans of lhs and rhs', not equal-looking copies — and the bounds of an X span are never index variables of rhs and vice versa. (R-EDIT-OPTABLE) every Edit literal in packages slice and mdiff sets exactly the fields the documentation of Edit assigns to its opcode (Drop/Emit: X; Copy: Y; Replace: X and Y). (R-OP-EXHAUSTIVE) every switch over EditOp in non-test code handles all four opcodes or has a default arm that panics or returns an error (the two half-switches of the context format are exempt by the format's definition). (cursor families) a cursor family of the builder that indexes or bounds spans of an input never also indexes the common subsequence; (R-SIBLING-GUARD) guards before a comparison of an element of each input constrain both indices or neither. The run of kept elements is counted from the offset its Emit span starts at; no Edit is built under a boolean carried round the loop and never cleared; spans assigned after construction are held to the same provenance as literals. Does NOT decide that applying the script yields rhs, minimality (LCS length), canonical form, emptiness iff equal, or the exact span bounds."
+	c.Explanation = "Decides structural clauses: (R-EDIT-SPAN) every Edit built by the edit-script constructor takes X from a slice expression over lhs and Y from one over rhs — 'the very spans of lhs and rhs', not equal-looking copies — and the bounds of an X span are never index variables of rhs and vice versa. (R-EDIT-OPTABLE) every Edit literal in packages slice and mdiff sets exactly the fields the documentation of Edit assigns to its opcode (Drop/Emit: X; Copy: Y; Replace: X and Y). (R-OP-EXHAUSTIVE) every switch over EditOp in non-test code handles all four opcodes or has a default arm that panics or returns an error (the two half-switches of the context format are exempt by the format's definition). (cursor families) a cursor family of the builder that indexes or bounds spans of an input never also indexes the common subsequence; (R-SIBLING-GUARD) guards before a comparison of an element of each input constrain both indices or neither. The run of kept elements is counted from the offset its Emit span starts at; no Edit is built under a boolean carried round the loop and never cleared; spans assigned after construction are held to the same provenance as literals. (R-LCS-FRESH) LCSFunc hands back a parameter only where it is known to be empty. Does NOT decide that applying the script yields rhs, minimality (LCS length), canonical form, emptiness iff equal, or the exact span bounds."
 	c.rule("R-EDIT-SPAN", 4, "X spans are slices of lhs, Y spans slices of rhs; span bounds use the matching side's index variables")
 	c.rule("R-EDIT-OPTABLE", 6, "Op ↔ fields as documented on every Edit literal with a constant opcode")
 	c.rule("R-OP-EXHAUSTIVE", 3, "every EditOp switch is exhaustive or has a strict default")
@@ -440,7 +440,7 @@ func runC11(c *Ctx) {
 
 func runC13(c *Ctx) {
 	P := c.P
-	c.Explanation = "Decides structural clauses: (R-EDITS-WRITERS) Diff.Edits is stored only by New and nothing in package mdiff writes through it (no element store, append or mutating callee with that provenance) — 'Edits always holds the full script and is not disturbed by AddContext or Unify'. (R-CONTEXT-FRESH) the one in-place append on an edit's span in UnifyChunks is guarded by both edits being Emit, New never places an Emit edit in a chunk, and every Emit edit AddContext builds has a freshly allocated span, so merging context cannot write into Left, Right or the script. (R-LR-MIRROR) every update of a chunk's left range has, in the same block, the mirrored update of its right range (LStart↔RStart, LEnd↔REnd, lcur↔rcur, addl↔addr): context lines exist on both sides, so a one-sided update leaves the two ranges describing different amounts of text. (R-SIBLING-GUARD) where d.Left[p] is compared with d.Right[q] the dominating guards constrain both indices or neither. (R-DROP-GUARDED) an edit leaves a chunk's list only under a test on its span's length or after its span was appended to its neighbour; (R-JOIN-LAST) no span is trimmed after the boundary context edits were joined in the same iteration; (R-ALLOC-BOUNDED) no allocation sized by the bare context count. Does NOT decide that chunk ranges and edits describe a correct patch; in particular context found by positional comparison reaching across a neighbouring chunk (a data-dependent fault known from earlier dynamic work) has no structural signature and these rules are silent on it."
+	c.Explanation = "Decides structural clauses: (R-EDITS-WRITERS) Diff.Edits is stored only by New and nothing in package mdiff writes through it (no element store, append or mutating callee with that provenance) — 'Edits always holds the full script and is not disturbed by AddContext or Unify'. (R-CONTEXT-FRESH) the one in-place append on an edit's span in UnifyChunks is guarded by both edits being Emit, New never places an Emit edit in a chunk, and every Emit edit AddContext builds has a freshly allocated span, so merging context cannot write into Left, Right or the script. (R-LR-MIRROR) every update of a chunk's left range has, in the same block, the mirrored update of its right range (LStart↔RStart, LEnd↔REnd, lcur↔rcur, addl↔addr): context lines exist on both sides, so a one-sided update leaves the two ranges describing different amounts of text. (R-SIBLING-GUARD) where d.Left[p] is compared with d.Right[q] the dominating guards constrain both indices or neither. (R-DROP-GUARDED) an edit leaves a chunk's list only under a test on its span's length or after its span was appended to its neighbour; (R-JOIN-LAST) no span is trimmed after the boundary context edits were joined in the same iteration; (R-ALLOC-BOUNDED) no allocation sized by the bare context count. (R-MERGE-TARGET) the chunk a successor is compared and merged with is read from the kept chunks each time round or is a variable the loop updates. Does NOT decide that chunk ranges and edits describe a correct patch; in particular context found by positional comparison reaching across a neighbouring chunk (a data-dependent fault known from earlier dynamic work) has no structural signature and these rules are silent on it."
 	c.rule("R-EDITS-WRITERS", 2, "Diff.Edits is stored only in New; no write through a value derived from it")
 	c.rule("R-CONTEXT-FRESH", 5, "in-place span append only between Emit edits; Emit edits in chunks have fresh, mutually disjoint spans; New puts no Emit edit in a chunk; Unify edits the chunk's own edit list; chunks stay separate only across a strict gap")
 	c.rule("R-LR-MIRROR", 8, "every L-range store has its mirrored R-range store in the same block")
